@@ -5,3 +5,9 @@ extern crate alloc;
 
 #[cfg(kani)]
 pub mod stubs;
+#[cfg(kani)]
+pub mod txm;
+#[cfg(kani)]
+mod c03;
+#[cfg(kani)]
+mod exp;
